@@ -37,6 +37,7 @@ INCRATE_FILES = {
     "engine_ops.rs": ("skrifa_in", "outline::glyf::hint::engine::verif_harness"),
     "decycler.rs": ("skrifa_in", "decycler::verif_harness"),
     "glyf_memory.rs": ("skrifa_in", "outline::glyf::memory::verif_harness"),
+    "path.rs": ("skrifa_in", "outline::path::verif_harness"),
     "write_hook.rs": ("write_in", "write::verif_harness"),
     "simple.rs": ("write_in", "tables::glyf::simple::verif_harness"),
     "cmap.rs": ("write_in", "tables::cmap::verif_harness"),
